@@ -177,13 +177,23 @@ class SheetGen:
         srcs = self._pick_sources()
         if not srcs:
             return [("start", {"value": "", "variable": "", "type": "", "name": ""})]
+        self._edge_srcs = []
         for i, s in enumerate(srcs):
             cond = self._edge_for(s)
             frm = s["id"]
             if allow_blank_from and i == 0 and s is self.nodes[-1] and self.last_group_is(s) and rng.random() < 0.5:
                 frm = ""
             edges.append((frm, cond))
+            self._edge_srcs.append((s, cond))
         return edges
+
+    def _note_named(self, rid):
+        """remember which row each NAMED conditional edge leads to (for `_goto_row`'s shared-category re-entry)"""
+        for s, cond in getattr(self, "_edge_srcs", []):
+            if cond["name"] and (cond["value"] or cond["type"]) and cond["value"].lower() != "no response" \
+                    and (s["type"] in ACTION_TYPES or s["type"] in ("wait_for_response", "split_by_value")):
+                s.setdefault("named", []).append((cond["name"], rid))
+        self._edge_srcs = []
 
     def last_group_is(self, s):
         return self._last_group is s
@@ -306,13 +316,41 @@ class SheetGen:
             row["save_name"] = "air res"
         if rng.random() < 0.12:
             row["_ui_position"] = f"{rng.randint(0, 900)};{rng.randint(0, 900)}"
+        self._edge_srcs = []
         edges = self._edges()
         self._emit(row, edges)
+        self._note_named(rid)
         self.nodes.append(info)
         self._last_group = info
 
+    def _shared_category_goto(self, tg):
+        """a go_to row adding ANOTHER test to a category that an earlier edge of the same row named, leading to the
+        same row as that edge: one category, two tests, one destination — single meaning; the new test is declared
+        after (and is tried after) every test declared in between, whatever category those belong to"""
+        rng = self.rng
+        ok_ids = {x["id"] for x in tg}
+        cands = [(x, nm, t) for x in self.nodes if not x.get("closed") for nm, t in x.get("named", []) if t in ok_ids]
+        if not cands:
+            return False
+        src, name, tgt = rng.choice(cands)
+        for _ in range(6):
+            cond = self._edge_for(src)
+            if (cond["value"] or cond["type"]) and cond["value"].lower() != "no response":
+                break
+        else:
+            return False
+        cond["name"] = name
+        self._emit({"row_id": "", "type": "go_to", "message_text": tgt}, [(src["id"], cond)])
+        self.shared_cat_gotos = getattr(self, "shared_cat_gotos", 0) + 1
+        return True
+
     def _goto_row(self):
         rng = self.rng
+        if not self.dups and rng.random() < 0.3:
+            tg0 = [x for x in self.nodes if x["type"] != "no_op" and not x.get("merged")]
+            if self._shared_category_goto(tg0):
+                return
+        self._edge_srcs = []
         edges = self._edges()
         # (a go_to into a row merged into an earlier row's node would enter that node at its first action: F-C02-d)
         tg = [x for x in self.nodes if x["type"] != "no_op" and not x.get("merged")]
